@@ -122,24 +122,24 @@ FORMS = (" `forms`: the object built from an equal-valued constructor input in "
 EXTRA = {
  "C01": " Added: drivers for the Rainfall and EventSeries climate networks, a metric switch between two rate-based thresholdings, link-density requests modelled by the threshold a fresh object derives, depth-3 histories for ClimateData, Surrogates and the Tsonis network in the quick tier; the class-level memo is emptied before the twin is evaluated.",
  "C02": " Added: `scale` (structured graphs of 21-300 nodes) and the n.s.i. entries of dict-valued methods (distance_based_measures).",
- "C03": " Added: `scale`/`named` structured graphs up to 300 nodes and a link-length alphabet containing 0; `inherit` (every measure a Network subclass inherits, on objects of 21 subclass drivers - fresh and after each public mutator - vs the plain Network with the same adjacency, weights and link attributes).",
+ "C03": " Added: `scale`/`named` structured graphs up to 300 nodes and a link-length alphabet containing 0; `inherit` (every measure a Network subclass inherits, on objects of 21 subclass drivers - fresh and after each public mutator - vs the plain Network with the same adjacency, weights and link attributes); a signed link attribute for the strength-type measures; pagerank(use_directed=False).",
  "C04": " Added: `scale`; directed InteractingNetworks with node lists mapped element by element; recurrence networks with fixed rate / fixed local rate on tie-rich series.",
- "C05": " Added: sparse inputs with stored zeros, save-after-change histories (weights, adjacency), a signed link attribute, `scale` (N >= 182)." + FORMS,
- "C06": " Added: family `two_objects` (A, another object B of the same class, A again - queries and every mutator - vs A alone) and fingerprints of every data object (grid, ClimateData) handed to a constructor through that object's own public queries.",
+ "C05": " Added: sparse inputs with stored zeros, save-after-change histories (weights, adjacency), a signed link attribute, igraph objects with edges in another order, copy + in-place weight update, `scale` (N >= 182)." + FORMS,
+ "C06": " Added: family `two_objects` (A, another object B of the same class, A again - queries and every mutator - vs A alone) and fingerprints of every data object (grid, ClimateData) handed to a constructor through that object's own public queries; every observed array is snapshotted at observation time (aliasing with library buffers).",
  "C07": " Added: `scale` (130-300 states), `normalize=True`, and re-thresholding of every explored recurrence network through the matching public setter (the adaptive one also with an explicit processing order)." + FORMS,
- "C08": " Added: `long` (scan lines beyond 256 cells) and float32-boundary thresholds in sequential mode; `objects` (recurrence networks, joint plots and joint networks, fresh and after each mutator, vs run-length counts of their own matrix).",
+ "C08": " Added: `long` (scan lines beyond 256 cells) and float32-boundary thresholds in sequential mode; `objects` (recurrence networks, joint plots and joint networks, fresh and after each mutator, vs run-length counts of their own matrix); `rqa_summary` with l_min != v_min; `embedded_mv` (NaN samples under delay embedding).",
  "C09": " Added: `scale` (129-209 nodes, non-local bands, coincident nodes); the directed Hilbert network vs a fresh object after every setter." + FORMS,
- "C10": " Added: `scale` (>= 17 bins) and `gridded` ([time, lat, lon] / [time, level, lat, lon] input vs its row-major reshape, both classes)." + FORMS,
+ "C10": " Added: `scale` (>= 17 bins) and `gridded` ([time, lat, lon] / [time, level, lat, lon] input vs its row-major reshape, both classes); full-sample time surrogates vs the full-window statistic; shift invariance of the climate similarity measures; estimates before and after a surrogate draw." + FORMS,
  "C11": " Added: `scale` (counters >= 128, unsorted groups on 16-30 node graphs, N >= 182) and links of length exactly 0.",
  "C12": " Added: `scale` (hundreds of nodes, small separations on large grids); the inherited Euclidean and the angular matrix on one GeoGrid in both orders." + FORMS,
  "C13": " Added: `scale` (|t|/dt > 1e5, T up to 300), time stamps that are not single-precision numbers with bounds on samples, integer observables." + FORMS,
  "C14": " Added: `mid`/`scale` (17-300 samples, divide-and-conquer patterns) and uneven timings far from the origin." + FORMS,
  "C15": " Added: `scale` (>= 128 neighbours) and threshold ties judged against the class's own recurrence plot." + FORMS,
  "C16": " Added: `scale` (60-513 samples, large time offsets, fine time units), taumax = 0, integer / float32 / shifted data for event extraction." + FORMS,
- "C17": " Added: `scale` families, density-to-count round trips for products up to 400, node lists in non-ascending order.",
- "C18": " Added: `scale` (25-40 nodes, resistances over >= 10 decades, several components) and `routes` (adjacency= with values on non-links, update with a full matrix / the same array edited in place)." + FORMS,
+ "C17": " Added: `scale` families, density-to-count round trips for products up to 400, node lists in non-ascending order; degree-preserving rewiring of directed networks (in- and out-degrees).",
+ "C18": " Added: `scale` (25-40 nodes, resistances over >= 10 decades, several components) and `routes` (adjacency= with values on non-links, update with a full matrix / the same array edited in place, real <-> complex updates); the scaling law with factors 2^-30 ... 2^30." + FORMS,
  "C19": " Added: components of 52-213 nodes (part arithmetic), more than 100 nodes per slave; preemption bounds 2/1 (quick) and 3/2 (thorough); distributed runs on objects of seven Network subclasses.",
- "C20": " Added: entries with 10-40 nodes / hundreds of samples (thorough) and the twin kernels of Surrogates (3-D embedding); tools/kernel_reach.py confirms that every function of the four extension modules is reached.",
+ "C20": " Added: entries with 10-40 nodes / hundreds of samples (thorough) and the twin kernels of Surrogates (3-D embedding); tools/kernel_reach.py confirms that every function of the four extension modules is reached; cross-recurrence entries with unequal lengths in more than one dimension; call histories within one process; chunk kernels on row blocks.",
 }
 
 
